@@ -88,7 +88,7 @@ class View:
 
 
 def fin(v):
-    return 0 if v in ("nan", "inf", "-inf") else 2**1000 if v == "huge" else -2**1000 if v == "-huge" else v
+    return 0 if v in ("nan", "inf", "-inf") else 2**1000 if v in ("huge", "hugeint") else -2**1000 if v in ("-huge", "-hugeint") else v
 
 
 # ------------------------------------------------------------------------------------------------
